@@ -200,9 +200,15 @@ def run(ctx):
     am = _fe("argmax($$c >= q)", ge.node, norm[0][1] if norm else None)
     ctx.ob("R-ARGMAX", "C17.4", ge, "entropy method: the CDF is normalised by its last element before the first-true search", len(norm) == 1 and len(am) == 1 and norm[0][0].lineno < am[0][0].lineno, "")
     gq = ctx.fn(INS + ".determine_threshold_quantile")
-    aq = _fs(f"$$a = {gq.params()[1]}['logL']", gq.node)
-    cq_ = _fs("$$c = weighted_quantile($$a, q, log_weights=$$w, values_sorted=True)", gq.node, aq[0][1] if aq else None)
-    okq = len(aq) == 1 and len(cq_) == 1 and any(len(_fe(pat_, gq.node, cq_[0][1])) == 1 for pat_ in ("argmax($$a >= $$c)", "flatnonzero($$a >= $$c)[0]", "where($$a >= $$c)[0][0]", "nonzero($$a >= $$c)[0][0]"))
+    # the searched array and the array the quantile is taken of are the same likelihood column (through a local or not)
+    col_ = f"{gq.params()[1]}['logL']"
+    aq = _fs(f"$$a = {col_}", gq.node)
+    okq = False
+    for A_ in ([src(aq[0][1]["a"])] if len(aq) == 1 else []) + [col_]:
+        cq_ = _fs(f"$$c = weighted_quantile({A_}, q, log_weights=$$w, values_sorted=True)", gq.node)
+        if len(cq_) == 1:
+            C_ = src(cq_[0][1]["c"])
+            okq = okq or any(len(_fe(pat_.replace("$$a", A_).replace("$$c", C_), gq.node)) == 1 for pat_ in ("argmax($$a >= $$c)", "flatnonzero($$a >= $$c)[0]", "where($$a >= $$c)[0][0]", "nonzero($$a >= $$c)[0][0]"))
     ctx.ob("R-ARGMAX", "C17.4", gq, "quantile method: the cut-off is a weighted quantile of the same likelihood array that is searched", okq, "")
     ctx.floor("C17.4", 5)
 
